@@ -28,6 +28,8 @@ C01_Blocks == Stmts({0}, Single \cup Multi \cup {"tri3", "pair2"}, {"none"})
               \cup Stmts({0}, {"one", "expr", "ml2", "cmp2", "deco3"}, {"first", "last"})
               \cup {St(0, "cmt", "a", "first"), St(0, "cmt", "a", "neg")}
               \cup {Txt(0, 1), Txt(0, 2), Blank}
+              \* an indented example (as under a google tag) whose want is directly followed by a flush-left prompt, and the reverse
+              \cup {St(1, "one", "a", "none"), St(1, "expr", "a", "none"), St(1, "cmp2", "c", "none"), Txt(1, 1)}
 
 \* ---- C19: dump (programs as C01, smaller shape set, plus a star-import statement)
 C19_Blocks == Stmts({0}, {"one", "expr", "cmt", "ml2", "cmp2", "deco3", "tri3", "star"}, {"none"})
